@@ -72,3 +72,57 @@ Theorem C17_dir_slash_name_is_identity : forall f s,
   identity_entry MPath s (f, RText (tag_dir (pf_rel f) None ++ slash :: tag_name (pf_rel f) None)).
 Proof. exact dir_slash_name_is_identity. Qed.
 Print Assumptions C17_dir_slash_name_is_identity.
+
+(* ---- the whole program (added once the component models were composed: Whole/Main.v [tempren_main]) ---- *)
+From Coq Require Import Permutation.
+From Tempren Require Import Pipe.FrontCompile Whole.Library Whole.Render Whole.Gather Whole.Main Whole.Facts Whole.Theorems Whole.Examples.
+
+(* `tempren -n '%Name()' dirs`, `tempren -n '%Base()%Ext()' dirs` (also with -d), `tempren -p '%Dir()/%Name()' dirs`
+   - the TEXTS, compiled against the core library - on EVERY tree with ordinary names (well formed; no '/', "",
+   "." or ".." as an entry name; keys shorter than the path-walk bound of the model), for every non-empty list of
+   input paths that name directories (any spelling, through symbolic links too), every listing order of the
+   operating system, with or without -r, -ih, --sort %Name() (not available in directory mode), any strategy, real
+   or dry: no system call, nothing reported, no intermediate state, exit status 0, the final tree IS the initial
+   one.  Directory mode without -r renames the input directories themselves (File(parent, name)): there the
+   input paths are the keys of directories of the tree. *)
+Theorem C17_whole_identity_templates : forall upper lower o text dirs s,
+  tree_ok s ->
+  dirs <> [] -> Forall (fun d => is_dir s [] (abs_path d) = true) dirs ->
+  (explicit_mode o = true -> Forall (fun d => d <> [] /\ lookup s d = Some NDir) dirs) ->
+  (forall l, Permutation l (o_listing o l)) ->
+  (o_mode o = MDirectory -> o_sort_name o = false) ->
+  ((o_mode o <> MPath /\ (text = t_name \/ text = t_base_ext)) \/ (o_mode o = MPath /\ text = t_dir_name)) ->
+  let r := tempren_main upper lower core_reg o text dirs s in
+  r_status r = 0%Z /\ r_calls r = [] /\ r_report r = [] /\ r_states r = [] /\ r_final r = s.
+Proof. exact whole_identity_templates. Qed.
+Print Assumptions C17_whole_identity_templates.
+
+(* the texts are what they are said to be; the hypothesis on the tree has a checker *)
+Theorem C17_whole_texts :
+  t_name = [37; 78; 97; 109; 101; 40; 41] /\                                              (* %Name()        *)
+  t_base_ext = [37; 66; 97; 115; 101; 40; 41; 37; 69; 120; 116; 40; 41] /\                (* %Base()%Ext()  *)
+  t_dir_name = [37; 68; 105; 114; 40; 41; 47; 37; 78; 97; 109; 101; 40; 41] /\            (* %Dir()/%Name() *)
+  (forall o, explicit_mode o = match o_mode o with MDirectory => negb (o_recursive o) | _ => false end).
+Proof. exact identity_texts. Qed.
+Print Assumptions C17_whole_texts.
+
+Theorem C17_whole_tree_checker_sound : forall s, tree_ok_b s = true -> tree_ok s.
+Proof. exact tree_ok_b_sound. Qed.
+Print Assumptions C17_whole_tree_checker_sound.
+
+(* a concrete tree (files, a hidden file, a subdirectory), the listing reversed, every mode: nothing happens;
+   a template that is not an identity does rename *)
+Example C17_whole_example :
+  tree_ok_b ex_tree = true /\
+  (forall m r t, In (m, r, t) [(MName, true, t_name); (MName, false, t_base_ext); (MDirectory, true, t_name);
+                               (MDirectory, false, t_base_ext); (MPath, true, t_dir_name); (MPath, false, t_dir_name)] ->
+     let res := ex_main (ex_options_rev m r false) t ex_dirs ex_tree in
+     r_status res = 0%Z /\ r_calls res = [] /\ r_report res = [] /\ r_final res = ex_tree) /\
+  length (whole_plan ascii_upper_str ascii_lower_str b_name (ex_options_rev MName true false) ex_dirs ex_tree) = 5%nat /\
+  length (r_calls (ex_main (ex_options MName true true) t_upper_count ex_dirs ex_tree)) = 4%nat.
+Proof.
+  split; [vm_compute; reflexivity|]. split.
+  - intros m r t H. cbn [In] in H.
+    repeat (destruct H as [H|H]; [inversion H; subst; vm_compute; repeat split; reflexivity|]). destruct H.
+  - vm_compute. split; reflexivity.
+Qed.
